@@ -71,6 +71,20 @@ def top_frame(frames, root=None):
     return frames[0][0] if frames else "?"
 
 
+TOOL_DIRS = ("/misc/", "/e2fsck/", "/debugfs/", "/resize/")
+
+
+def hang_frame(frames, root=None):
+    """signature of a hang: the innermost frame that lies in the tool's own directory (the
+    library frames below it differ from sample to sample), else the innermost frame of the
+    tree under test"""
+    ours = [(fn, loc) for fn, loc in frames if (root and root in loc)]
+    for fn, loc in ours:
+        if any(d in loc[len(root):] if root else d in loc for d in TOOL_DIRS):
+            return fn
+    return ours[0][0] if ours else None
+
+
 def parse_sanitizer(etext, root=None):
     """-> None or dict(kind='asan'|'signal', bug=..., func=..., excerpt=...)"""
     m = _RE_ASAN.search(etext)
@@ -84,7 +98,7 @@ def parse_sanitizer(etext, root=None):
         i = max(0, m.start() - 12)
         kind = "signal" if bug in SIGNAL_BUGTYPES else "asan"
         return {"kind": kind, "bug": bug, "func": func, "excerpt": etext[i:i + 2600],
-                "frames": ["%s %s" % f for f in fr[:12]]}
+                "frames": ["%s %s" % f for f in fr[:12]], "frames_raw": fr}
     m = _RE_UBSAN.search(etext)
     if m:
         msg = m.group(4)
@@ -95,7 +109,7 @@ def parse_sanitizer(etext, root=None):
         fr = _frames(etext, m.end())
         func = top_frame(fr, root) if fr else "%s" % m.group(1).split("/")[-1]
         return {"kind": "asan", "bug": bug, "func": func, "excerpt": etext[m.start():m.start() + 2000],
-                "frames": ["%s %s" % f for f in fr[:12]]}
+                "frames": ["%s %s" % f for f in fr[:12]], "frames_raw": fr}
     return None
 
 
@@ -116,7 +130,13 @@ def judge(binary, res, root=None, capped=False, san_exit=99):
     key_tail=..., what=...).  key_tail is appended to 'C06 <binary> ' by the caller."""
     et = res.etext
     if res.timed_out:
-        return {"verdict": "timeout", "key_tail": "hang", "what": "watchdog expired"}
+        # the watchdog sent SIGABRT first: the runtime's ABRT report says where it was
+        san = parse_sanitizer(et, root)
+        func = None
+        if san and san["bug"] == "ABRT":
+            func = hang_frame(san["frames_raw"], root)
+        return {"verdict": "timeout", "key_tail": "hang", "hang_func": func,
+                "what": "watchdog expired" + ("; interrupted at:\n" + "\n".join(san["frames"]) if san else "")}
     rv = resource_verdict(et)
     san = parse_sanitizer(et, root)
     if rv and (san is None or san["bug"] in ("allocation-size-too-big", "out-of-memory",
